@@ -34,7 +34,9 @@ inductive Body (B : Type) where
   | junk
   | empty
 
-/-- A kad record as a holder may return it: header kind (`none` = bytes that are no `RecordHeader`) and body. -/
+/-- A kad record as a holder may return it: header kind (`none` = bytes that are no `RecordHeader`) and body.
+`Record.key` (chosen by the replying holder, compared with the queried key by nobody below the client) is not a field:
+no code on these paths reads it — the address checks are against the *requested* address / key. -/
 structure Rec (B : Type) where
   hdr : Option Kind
   body : Body B
